@@ -211,7 +211,7 @@ Section Ext.
       destruct n as [|f]; [discriminate EF|].
       destruct (fe_elems (S f) c x prefix Hin Hc EF) as [[els raw] [EE (Ka & Kc & Km & Ks & Ke & Kf & Kp)]].
       cbn [fst snd] in *.
-      destruct (build_syms_plain root Q2 (S f) (me2 c) _ (me2_lookup c) _ _ _ _ Kp BS) as [l' [-> F]].
+      destruct (build_syms_plain root Q2 (S f) (me2 c) _ _ (fun s0 tc tlex tparent b _ L => me2_lookup c _ _ _ _ _ L) _ _ _ Kp BS) as [l' [-> F]].
       cbn [rev app] in *. cbn [flatten_symbols] in Fs.
       destruct (fs_go flatten_symbols prefix l' [] []) as [[flat feqs]|err] eqn:G; cbn [bind] in Fs; [|discriminate Fs].
       assert (Forall2 (el_ok root Q2 eq (S f) (me2 c)) els l') as F2.
